@@ -67,7 +67,7 @@ ENGINES = {
                  "compsim/gen.cpp", "compsim/comps_a.cpp", "compsim/comps_b.cpp", "compsim/wrap.cpp",
                  "compsim/smart.cpp", "compsim/joint.cpp", "compsim/deep.cpp", "compsim/cont.cpp", "compsim/cont_0.cpp",
                  "compsim/cont_1.cpp", "compsim/cont_2.cpp", "compsim/cont_3.cpp", "compsim/cont_4.cpp",
-                 "compsim/cont_5.cpp", "compsim/cont_6.cpp", "compsim/cont_7.cpp", "compsim/cont_8.cpp", "compsim/cont_9.cpp"],
+                 "compsim/cont_5.cpp", "compsim/cont_6.cpp", "compsim/cont_7.cpp", "compsim/cont_8.cpp", "compsim/cont_9.cpp", "compsim/cont_10.cpp"],
         wraps=WRAPS, libs=[], nodesizes=True),
 }
 
